@@ -53,7 +53,10 @@ def run(ctx):
             diff = float(np.max(np.abs(out["cy"] - out["py"]))) if n else 0.0
             bound = 8 * n * 2.0 ** -53 * scale * (1 + np.log2(n + 1))
             worst_rel = max(worst_rel, diff / scale)
-            if (same_order or not ties) and not diff <= bound:
+            if ties and not same_order:
+                ctx.dist["tie_orders_differ_between_kernels"] += 1
+            # the property demands agreement with the reference kernel also on tied distances (both kernels rank with the same sort on this tree)
+            if not diff <= bound:
                 k = int(np.argmax(np.abs(out["cy"] - out["py"])))
                 ctx.mismatch("compiled kernel differs from the reference kernel beyond double rounding", small_case,
                              impl=dict(cy=float(out["cy"][k]), py=float(out["py"][k]), unit=k, diff=diff, bound=bound))
